@@ -82,6 +82,7 @@ type sched struct {
 	remain   int
 	hkey     func() string
 	pruned   int
+	atoms    map[any]*atomObj
 }
 
 type thread struct {
@@ -327,6 +328,45 @@ func Yield(label string) { yield(label, always) }
 
 // WaitUntil blocks the calling thread until pred holds (evaluated by the scheduler).
 func WaitUntil(label string, pred func() bool) { yield(label, pred) }
+
+// atomObj makes the value behind an atomic variable part of the global state key.
+type atomObj struct {
+	objBase
+	get func() string
+}
+
+func (a *atomObj) stateString() string { return "A" + a.id + ":" + a.get() }
+
+// globalAtoms holds, for every package-level atomic variable met so far in this process, the closure that
+// restores the value it had when it was first met: package-level state must not leak from one execution into
+// the next (replay would diverge). Heap-allocated atomics are created afresh by every execution.
+var globalAtoms = map[any]func(){}
+
+// AtomicPoint is the scheduling point in front of one atomic operation on the variable at addr (a pointer,
+// used as identity); get prints the variable's current value for the state key; for package-level variables
+// (global) snap captures the current value and returns the closure that restores it.
+func AtomicPoint(addr any, global bool, label string, get func() string, snap func() func()) {
+	sc := s
+	if sc == nil {
+		return
+	}
+	if sc.atoms == nil {
+		sc.atoms = map[any]*atomObj{}
+	}
+	if sc.atoms[addr] == nil {
+		if global {
+			if restore, ok := globalAtoms[addr]; ok {
+				restore()
+			} else {
+				globalAtoms[addr] = snap()
+			}
+		}
+		a := &atomObj{get: get}
+		sc.atoms[addr] = a
+		a.touch(a)
+	}
+	yield(label, always)
+}
 
 // Go spawns a new virtual thread.
 func Go(f func()) { GoNamed("g", f) }
